@@ -97,6 +97,77 @@ async fn replay_create_certificate() {
     assert_eq!(s.service.get_latest_certificates(10).await.unwrap().len(), 2, "more certificates stored than the genesis one and the sealed one");
 }
 
+/// every later certificate of an epoch links to the FIRST certificate of that epoch - also for a signed entity whose own epoch
+/// differs from the epoch in which it is signed (the Cardano stake distribution of epoch N is signed during epoch N + 1)
+#[tokio::test]
+async fn replay_create_certificate_links_to_master_of_signing_epoch() {
+    let s = setup(temp_dir!()).await;
+    s.service.create_open_message(&s.signed_entity_type, &s.protocol_message).await.unwrap();
+    register_all(&s).await;
+    let first = s.service.create_certificate(&s.signed_entity_type).await.unwrap().expect("first certificate of epoch 3 not created");
+    assert_eq!(first.previous_hash, s.genesis_hash);
+    let stake_distribution = SignedEntityType::CardanoStakeDistribution(Epoch(2));
+    assert_eq!(stake_distribution.get_epoch_when_signed_entity_type_is_signed(), Epoch(3));
+    let mut message = ProtocolMessage::new();
+    message.set_message_part(ProtocolMessagePartKey::CurrentEpoch, "3".to_string());
+    message.set_message_part(ProtocolMessagePartKey::CardanoStakeDistributionEpoch, "2".to_string());
+    message.set_message_part(ProtocolMessagePartKey::CardanoStakeDistributionMerkleRoot, "merkle-root".to_string());
+    s.service.create_open_message(&stake_distribution, &message).await.unwrap();
+    for signature in s.fixture.sign_all(&message) {
+        s.service.register_single_signature(&stake_distribution, &signature).await.unwrap();
+    }
+    let second = s.service.create_certificate(&stake_distribution).await.unwrap().expect("second certificate of epoch 3 not created");
+    assert_eq!(second.epoch, Epoch(3));
+    assert_eq!(second.previous_hash, first.hash,
+               "the second certificate of epoch 3 (Cardano stake distribution of epoch 2) links to {} instead of the first certificate of its own epoch", second.previous_hash);
+}
+
+/// a certificate the verifier REJECTS is never stored (verification comes before storage)
+#[tokio::test]
+async fn replay_create_certificate_stores_nothing_unverified() {
+    let s = setup(temp_dir!()).await;
+    // replace the genesis certificate by one that commits to ANOTHER next aggregate key than the one of the current signers
+    let other = MithrilFixtureBuilder::default().with_signers(6).build();
+    let connection_genesis = other.create_genesis_certificate(s.service.network, Epoch(2));
+    assert!(connection_genesis.hash != s.genesis_hash);
+    s.service.certificate_repository.delete_certificates(&[&s.service.get_certificate_by_hash(&s.genesis_hash).await.unwrap().unwrap()]).await.unwrap();
+    s.service.certificate_repository.create_certificate(connection_genesis).await.unwrap();
+    s.service.create_open_message(&s.signed_entity_type, &s.protocol_message).await.unwrap();
+    register_all(&s).await;
+    let r = s.service.create_certificate(&s.signed_entity_type).await;
+    assert!(r.is_err(), "a certificate whose aggregate key is not the one announced by its parent was created");
+    let stored = s.service.get_latest_certificates(10).await.unwrap();
+    assert_eq!(stored.len(), 1, "a certificate that FAILED verification was stored ({} certificates in the store, expected the genesis one only)", stored.len());
+    assert!(!s.service.get_open_message(&s.signed_entity_type).await.unwrap().unwrap().is_certified);
+}
+
+/// an open message past its deadline is PERSISTED as expired: later calls read the stored flag
+#[tokio::test]
+async fn replay_mark_open_message_if_expired() {
+    let s = setup(temp_dir!()).await;
+    s.service.create_open_message(&s.signed_entity_type, &s.protocol_message).await.unwrap();
+    // not past its deadline: untouched
+    assert!(s.service.mark_open_message_if_expired(&s.signed_entity_type).await.unwrap().is_none(), "an open message that has not expired was reported expired");
+    let mut record = s.service.open_message_repository.get_open_message(&s.signed_entity_type).await.unwrap().unwrap();
+    record.expires_at = Some(chrono::DateTime::parse_from_rfc3339("2000-01-19T13:43:05Z").unwrap().with_timezone(&Utc));
+    s.service.open_message_repository.update_open_message(&record).await.unwrap();
+    let marked = s.service.mark_open_message_if_expired(&s.signed_entity_type).await.unwrap().expect("an open message past its deadline was not reported");
+    assert!(marked.is_expired);
+    assert!(s.service.get_open_message(&s.signed_entity_type).await.unwrap().unwrap().is_expired, "the expired flag was returned to the caller but NOT persisted");
+    let signatures = s.fixture.sign_all(&s.protocol_message);
+    assert!(s.service.register_single_signature(&s.signed_entity_type, &signatures[0]).await.is_err(), "a signature was registered for an open message that has expired");
+    assert!(s.service.create_certificate(&s.signed_entity_type).await.is_err(), "a certificate was created for an open message that has expired");
+}
+
+#[tokio::test]
+async fn replay_create_open_message() {
+    let s = setup(temp_dir!()).await;
+    let stake_distribution = SignedEntityType::CardanoStakeDistribution(Epoch(2));
+    let open = s.service.create_open_message(&stake_distribution, &s.protocol_message).await.unwrap();
+    assert_eq!(open.epoch, Epoch(3), "the open message of the Cardano stake distribution of epoch 2 is not opened for the epoch in which it is signed (3)");
+    assert!(open.protocol_message == s.protocol_message);
+}
+
 #[tokio::test]
 async fn replay_create_certificate_rejects_expired_and_unknown() {
     let s = setup(temp_dir!()).await;
